@@ -29,6 +29,7 @@ var trimTable = map[string]string{
 }
 
 func ruleIOConv(c *Ctx) {
+	recordsAreCopies(c)
 	p := c.pkg("interp")
 	info := p.TypesInfo
 	// TRIM
@@ -322,7 +323,28 @@ func csvWriterReuse(c *Ctx) {
 						if !ok || ex.Index != 1 {
 							continue
 						}
+						// the tests of the assertion's ok: the If on it, or on a value that is true only when it is
+						// (a phi of ok and constant false: `ok && <more>` written with an assignment)
+						var okTests []ssa.Instruction
 						for _, r3 := range *ex.Referrers() {
+							okTests = append(okTests, r3)
+							if ph, isPhi := r3.(*ssa.Phi); isPhi && ph.Referrers() != nil {
+								only := true
+								for _, e := range ph.Edges {
+									if e == ssa.Value(ex) {
+										continue
+									}
+									if k, isK := e.(*ssa.Const); isK && k.Value != nil && k.Value.ExactString() == "false" {
+										continue
+									}
+									only = false
+								}
+								if only {
+									okTests = append(okTests, *ph.Referrers()...)
+								}
+							}
+						}
+						for _, r3 := range okTests {
 							iff, ok := r3.(*ssa.If)
 							if !ok {
 								continue
@@ -352,7 +374,15 @@ func csvWriterReuse(c *Ctx) {
 					}
 					if len(pred.Instrs) > 0 {
 						if iff, ok := pred.Instrs[len(pred.Instrs)-1].(*ssa.If); ok {
-							if ex, ok := iff.Cond.(*ssa.Extract); ok {
+							cnd := iff.Cond
+							if cp, isPhi := cnd.(*ssa.Phi); isPhi {
+								for _, ce := range cp.Edges {
+									if cex, isEx := ce.(*ssa.Extract); isEx {
+										cnd = cex
+									}
+								}
+							}
+							if ex, ok := cnd.(*ssa.Extract); ok {
 								if ta, ok := ex.Tuple.(*ssa.TypeAssert); ok && isBufio(ta.AssertedType) && ta.X == e && pred.Succs[0] != ph.Block() {
 									good = false
 								}
@@ -369,6 +399,7 @@ func csvWriterReuse(c *Ctx) {
 
 func csvWriterConfig(c *Ctx) {
 	csvWriterReuse(c)
+	csvWriterReuseSize(c)
 	tmpWriterFlushed(c)
 	csvSoleWriter(c)
 	nW := 0
@@ -796,4 +827,122 @@ func csvSoleWriter(c *Ctx) {
 			fnKey(fn)+" has a way out of its CSV/TSV branch that does not pass writeCSV: the record text is produced by other means there, without the writer's quoting rules and without the \"\" it writes for a record made of one empty field - such a record is rebuilt or printed as an empty line, which the CSV reader skips, so it is not read back")
 	}
 	c.atLeast("functions that hand CSV/TSV-mode output to the CSV writer", n, 1)
+}
+
+// csvWriterReuseSize: csv.NewWriter uses the *bufio.Writer it is handed directly only when that writer's buffer has at
+// least 4096 bytes; a smaller one is wrapped in a buffered writer of csv.Writer's own, which nothing flushes. A
+// function that passes on a destination because an assertion to *bufio.Writer succeeded (and does not flush the
+// csv.Writer) therefore also compares that writer's Size() with a constant of at least 4096; a buffered writer it
+// builds itself for the purpose is built with at least that size.
+func csvWriterReuseSize(c *Ctx) {
+	isBufio := func(t types.Type) bool { return types.TypeString(t, nil) == "*bufio.Writer" }
+	n := 0
+	for _, fn := range c.srcFuncs("interp") {
+		fn := fn
+		hasUnflushedCSV := false
+		allInstrs(fn, func(in ssa.Instruction) {
+			call, ok := in.(*ssa.Call)
+			if !ok {
+				return
+			}
+			if f := calleeObj(call); f == nil || funcFullName(f) != "encoding/csv.NewWriter" {
+				return
+			}
+			flushed := false
+			if refs := call.Referrers(); refs != nil {
+				for _, r := range *refs {
+					if c2, ok := r.(ssa.CallInstruction); ok {
+						if f2 := calleeObj(c2); f2 != nil && funcFullName(f2) == "(*encoding/csv.Writer).Flush" {
+							flushed = true
+						}
+					}
+				}
+			}
+			if !flushed {
+				hasUnflushedCSV = true
+			}
+		})
+		if !hasUnflushedCSV {
+			continue
+		}
+		// assertions of a foreign writer to *bufio.Writer, and the size tests on their result
+		allInstrs(fn, func(in ssa.Instruction) {
+			ta, ok := in.(*ssa.TypeAssert)
+			if !ok || !isBufio(ta.AssertedType) {
+				return
+			}
+			n++
+			sized := false
+			var val ssa.Value = ta
+			if ta.CommaOk && ta.Referrers() != nil {
+				for _, r := range *ta.Referrers() {
+					if ex, ok := r.(*ssa.Extract); ok && ex.Index == 0 {
+						val = ex
+					}
+				}
+			}
+			if refs := val.Referrers(); refs != nil {
+				for _, r := range *refs {
+					call, ok := r.(*ssa.Call)
+					if !ok {
+						continue
+					}
+					if f := calleeObj(call); f == nil || funcFullName(f) != "(*bufio.Writer).Size" {
+						continue
+					}
+					if cr := call.Referrers(); cr != nil {
+						for _, u := range *cr {
+							if bo, ok := u.(*ssa.BinOp); ok {
+								for _, side := range []ssa.Value{bo.X, bo.Y} {
+									if k, ok := side.(*ssa.Const); ok && k.Value != nil && k.Int64() >= 4096 {
+										sized = true
+									}
+								}
+							}
+						}
+					}
+				}
+			}
+			c.check(sized, "csv-writer:reuse-size:"+fnKey(fn), in.Pos(), "a destination passed on as a *bufio.Writer has had its buffer size compared with 4096",
+				fnKey(fn)+" hands csv.NewWriter any *bufio.Writer it is given without looking at its size: bufio.NewWriter returns the writer itself only for buffers of at least 4096 bytes, a smaller one (Config.Output: bufio.NewWriterSize(w, 1024)) is wrapped in a buffer of csv.Writer's own that nothing flushes - every record printed in CSV/TSV output mode is lost")
+		})
+		allInstrs(fn, func(in ssa.Instruction) {
+			call, ok := in.(*ssa.Call)
+			if !ok {
+				return
+			}
+			f := calleeObj(call)
+			if f == nil || funcFullName(f) != "bufio.NewWriterSize" || len(call.Call.Args) != 2 {
+				return
+			}
+			n++
+			k, isK := call.Call.Args[1].(*ssa.Const)
+			c.check(isK && k.Value != nil && k.Int64() >= 4096, "csv-writer:reuse-size:"+fnKey(fn)+":own", in.Pos(), "the buffered writer built for the CSV writer has at least 4096 bytes",
+				fnKey(fn)+" builds the buffered writer it hands to csv.NewWriter with fewer than 4096 bytes (or a size that is not a constant): csv.NewWriter then wraps it in a buffer of its own, and the flush of the smaller one delivers nothing")
+		})
+	}
+	c.atLeast("writers handed to an unflushed csv.Writer whose size matters", n, 2)
+}
+
+// recordsAreCopies (part of R-IOCONV, C07): what nextLine hands out outlives the scanner's buffer, which bufio.Scanner
+// shifts, refills and grows: a record is a copy (Scanner.Text(), string(...)), never a view of the buffer. The only
+// way to make such a view is package unsafe, which package interp does not use at all.
+func recordsAreCopies(c *Ctx) {
+	p := c.pkg("interp")
+	if p == nil {
+		return
+	}
+	bad := token.NoPos
+	n := 0
+	for _, f := range p.Syntax {
+		n++
+		for _, imp := range f.Imports {
+			if imp.Path != nil && imp.Path.Value == "\"unsafe\"" {
+				bad = imp.Pos()
+			}
+		}
+	}
+	c.check(bad == token.NoPos, "record-copy:no-unsafe", bad, "package interp makes no string that shares memory with a read buffer (it does not import unsafe)",
+		"package interp imports unsafe: a record (or field) built as a view of the scanner's buffer changes under the program when the buffer is shifted or refilled - a record kept in a variable (first = $0, a[NR] = $0) reads back as other input once more than a buffer's worth has been read, depending on where the reads fell")
+	c.atLeast("files of package interp scanned for unsafe", n, 5)
 }
